@@ -91,14 +91,15 @@ theorem rwFirst_some (start : Nat) (cs : List Bytes) (rl : Nat) (h : rl ≤ star
         simp at this
         omega
 
-theorem rwFirst_none (start : Nat) (cs : List Bytes) (rl : Nat)
+theorem rwFirst_none (start : Nat) (cs : List Bytes) (rl : Nat) (h : rl ≤ start)
     (hf : rwFirst start cs rl = none) : rl + cs.flatten.length ≤ start := by
   induction cs generalizing rl with
-  | nil => simp [rwFirst] at hf ⊢; sorry
+  | nil => simpa using h
   | cons x xs ih =>
     simp only [rwFirst] at hf
     split at hf
-    · have := ih (rl + x.length) hf
+    · rename_i hle
+      have := ih (rl + x.length) hle hf
       simp only [List.flatten_cons, List.length_append]
       omega
     · cases hf
@@ -122,5 +123,245 @@ theorem blocks_flatten (b : Nat) (hb : 0 < b) (fuel : Nat) (d : Bytes) (h : d.le
       have hlen : 0 < d.length := List.length_pos_iff.mpr hne
       rw [List.flatten_cons, ih (d.drop b) (by rw [List.length_drop]; omega)]
       exact List.take_append_drop b d
+
+/-! ### entity-tag text -/
+
+/-- `"tag"` -/
+def quoteTag (tag : Str) : Str := '"' :: tag ++ ['"']
+
+/-- no `"` and no line feed inside -/
+def CleanTag (tag : Str) : Prop := ∀ c ∈ tag, c ≠ '"' ∧ c ≠ '\n'
+
+theorem quotedTag_clean (tag acc : Str) (h : CleanTag tag) :
+    quotedTag (tag ++ ['"']) acc = some (acc.reverse ++ tag, []) := by
+  induction tag generalizing acc with
+  | nil => simp [quotedTag, etagDelim]
+  | cons c t ih =>
+    have hc := h c (by simp)
+    have ht : CleanTag t := fun x hx => h x (by simp [hx])
+    simp only [List.cons_append, quotedTag]
+    have h1 : (c == '"') = false := by simpa using hc.1
+    have h2 : (c == '\n') = false := by simpa using hc.2
+    simp only [h1, h2, Bool.false_eq_true, ↓reduceIte]
+    rw [ih (c :: acc) ht]
+    simp
+
+theorem parseEtags_quoted (tag : Str) (hne : tag ≠ []) (h : CleanTag tag) :
+    parseEtags (some (quoteTag tag)) = ⟨[some tag], [], false⟩ := by
+  unfold parseEtags quoteTag
+  have hq := quotedTag_clean tag [] h
+  simp only [List.reverse_nil, List.nil_append] at hq
+  have hte : tag.isEmpty = false := by
+    cases tag with
+    | nil => exact absurd rfl hne
+    | cons _ _ => rfl
+  simp [parseEtagsLoop, hq, hte]
+
+theorem strip_quoteTag (tag : Str) : Py.strip (quoteTag tag) = quoteTag tag := by
+  unfold Py.strip Py.rstripBy quoteTag
+  have h1 : Py.isSpace '"' = false := by decide
+  simp [h1]
+
+theorem getLast_quote (tag : Str) : ('"' :: (tag ++ ['"'])).getLast? = some '"' := by
+  rw [← List.cons_append, List.getLast?_append]
+  simp
+
+theorem unquoteEtag_quoted (tag : Str) : unquoteEtag (quoteTag tag) = some (tag, false) := by
+  unfold unquoteEtag
+  rw [strip_quoteTag]
+  simp [quoteTag, getLast_quote]
+
+/-! ### Range header text -/
+
+/-- a non-empty string of ASCII digits -/
+def IsDigits (ds : Str) : Prop := ds ≠ [] ∧ ∀ c ∈ ds, isDigitA c = true
+
+theorem digit_not_space {c : Char} (h : isDigitA c = true) : Py.isSpace c = false := by
+  simp only [isDigitA, Bool.and_eq_true, decide_eq_true_eq] at h
+  have h1 : 48 ≤ c.toNat := h.1
+  have h2 : c.toNat ≤ 57 := h.2
+  simp only [Py.isSpace]
+  simp
+  omega
+
+theorem digit_ne {c d : Char} (h : isDigitA c = true) (hd : isDigitA d = false) : c ≠ d := by
+  intro e; subst e; rw [h] at hd; cases hd
+
+theorem dropWhile_head_false {p : Char → Bool} {s : Str} (h : ∀ c, s.head? = some c → p c = false) :
+    s.dropWhile p = s := by
+  cases s with
+  | nil => rfl
+  | cons c t => simp [h c rfl]
+
+theorem strip_noSpace (s : Str) (h : ∀ c ∈ s, Py.isSpace c = false) : Py.strip s = s := by
+  unfold Py.strip Py.rstripBy
+  rw [dropWhile_head_false (s := s)]
+  · rw [dropWhile_head_false (s := s.reverse)]
+    · simp
+    · intro c hc
+      have : c ∈ s.reverse := List.mem_of_mem_head? hc
+      exact h c (by simpa using this)
+  · intro c hc
+    exact h c (List.mem_of_mem_head? hc)
+
+theorem plainInt_digits (ds : Str) (h : IsDigits ds) : plainInt ds = some (digitsVal ds : Int) := by
+  unfold plainInt
+  rw [strip_noSpace ds (fun c hc => digit_not_space (h.2 c hc))]
+  cases ds with
+  | nil => exact absurd rfl h.1
+  | cons c t =>
+    have hc : c ≠ '-' := digit_ne (h.2 c (by simp)) (by decide)
+    have hall : (c :: t).all isDigitA = true := List.all_eq_true.mpr h.2
+    simp [hc, hall]
+
+theorem plainInt_neg_digits (ds : Str) (h : IsDigits ds) :
+    plainInt ('-' :: ds) = some (-(digitsVal ds : Int)) := by
+  unfold plainInt
+  have hsp : ∀ c ∈ '-' :: ds, Py.isSpace c = false := by
+    intro c hc
+    rcases List.mem_cons.mp hc with rfl | hc
+    · decide
+    · exact digit_not_space (h.2 c hc)
+  rw [strip_noSpace _ hsp]
+  have hall : ds.all isDigitA = true := List.all_eq_true.mpr h.2
+  have hne : ds.isEmpty = false := by
+    cases ds with
+    | nil => exact absurd rfl h.1
+    | cons _ _ => rfl
+  simp [hall, hne]
+
+theorem splitOnChar_none (d : Char) (s acc : Str) (h : ∀ c ∈ s, c ≠ d) :
+    splitOnChar d s acc = [acc.reverse ++ s] := by
+  induction s generalizing acc with
+  | nil => simp [splitOnChar]
+  | cons c t ih =>
+    have hc : (c == d) = false := by simpa using h c (by simp)
+    simp only [splitOnChar, hc, Bool.false_eq_true, ↓reduceIte]
+    rw [ih (c :: acc) (fun x hx => h x (by simp [hx]))]
+    simp
+
+theorem takeWhile_digits_dash (ds rest : Str) (h : ∀ c ∈ ds, isDigitA c = true) :
+    (ds ++ '-' :: rest).takeWhile (· != '-') = ds ∧
+    (ds ++ '-' :: rest).dropWhile (· != '-') = '-' :: rest := by
+  induction ds with
+  | nil => simp
+  | cons c t ih =>
+    have hc : c ≠ '-' := digit_ne (h c (by simp)) (by decide)
+    have := ih (fun x hx => h x (by simp [hx]))
+    simp [hc, this.1, this.2]
+
+theorem item_first_last (d1 d2 : Str) (h1 : IsDigits d1) (h2 : IsDigits d2)
+    (hle : digitsVal d1 ≤ digitsVal d2) (lastEnd : Int) (hl : 0 ≤ lastEnd) (hb : lastEnd ≤ digitsVal d1)
+    (rest : List Str) (acc : List (Int × Option Int)) :
+    parseRangeItems ((d1 ++ '-' :: d2) :: rest) lastEnd acc =
+      parseRangeItems rest ((digitsVal d2 : Int) + 1) (((digitsVal d1 : Int), some ((digitsVal d2 : Int) + 1)) :: acc) := by
+  have hsp : ∀ c ∈ d1 ++ '-' :: d2, Py.isSpace c = false := by
+    intro c hc
+    rcases List.mem_append.mp hc with hc | hc
+    · exact digit_not_space (h1.2 c hc)
+    · rcases List.mem_cons.mp hc with rfl | hc
+      · decide
+      · exact digit_not_space (h2.2 c hc)
+  have htd := takeWhile_digits_dash d1 d2 h1.2
+  have hhead : (d1 ++ '-' :: d2).head? ≠ some '-' := by
+    cases d1 with
+    | nil => exact absurd rfl h1.1
+    | cons c t =>
+      have hc : c ≠ '-' := digit_ne (h1.2 c (by simp)) (by decide)
+      simpa using hc
+  have hcont : (d1 ++ '-' :: d2).contains '-' = true := by simp
+  have hs1 := strip_noSpace d1 (fun c hc => digit_not_space (h1.2 c hc))
+  have hs2 := strip_noSpace d2 (fun c hc => digit_not_space (h2.2 c hc))
+  have he2 : d2.isEmpty = false := by
+    cases d2 with
+    | nil => exact absurd rfl h2.1
+    | cons _ _ => rfl
+  rw [parseRangeItems]
+  simp only [strip_noSpace _ hsp, hcont, Bool.not_true, Bool.false_eq_true, ↓reduceIte, htd.1, htd.2,
+    List.drop_succ_cons, List.drop_zero, hs1, hs2, plainInt_digits d1 h1, plainInt_digits d2 h2, he2]
+  have c1 : ((d1 ++ '-' :: d2).head? == some '-') = false := by simpa using hhead
+  simp only [c1, Bool.false_eq_true, ↓reduceIte]
+  have c2 : (decide ((digitsVal d1 : Int) < lastEnd) || decide (lastEnd < 0)) = false := by
+    simp; omega
+  simp only [c2, Bool.false_eq_true, ↓reduceIte]
+  have c3 : ¬ ((digitsVal d1 : Int) ≥ (digitsVal d2 : Int) + 1) := by omega
+  simp [c3]
+
+theorem item_open (d1 : Str) (h1 : IsDigits d1) (lastEnd : Int) (hl : 0 ≤ lastEnd)
+    (hb : lastEnd ≤ digitsVal d1) (rest : List Str) (acc : List (Int × Option Int)) :
+    parseRangeItems ((d1 ++ ['-']) :: rest) lastEnd acc =
+      parseRangeItems rest (-1) (((digitsVal d1 : Int), none) :: acc) := by
+  have hsp : ∀ c ∈ d1 ++ ['-'], Py.isSpace c = false := by
+    intro c hc
+    rcases List.mem_append.mp hc with hc | hc
+    · exact digit_not_space (h1.2 c hc)
+    · simp only [List.mem_singleton] at hc; subst hc; decide
+  have htd := takeWhile_digits_dash d1 [] h1.2
+  have hhead : (d1 ++ ['-']).head? ≠ some '-' := by
+    cases d1 with
+    | nil => exact absurd rfl h1.1
+    | cons c t =>
+      have hc : c ≠ '-' := digit_ne (h1.2 c (by simp)) (by decide)
+      simpa using hc
+  have hcont : (d1 ++ ['-']).contains '-' = true := by simp
+  have hs1 := strip_noSpace d1 (fun c hc => digit_not_space (h1.2 c hc))
+  have hs0 : Py.strip [] = [] := by decide
+  rw [parseRangeItems]
+  simp only [strip_noSpace _ hsp, hcont, Bool.not_true, Bool.false_eq_true, ↓reduceIte, htd.1, htd.2,
+    List.drop_succ_cons, List.drop_zero, hs1, hs0, plainInt_digits d1 h1]
+  have c1 : ((d1 ++ ['-']).head? == some '-') = false := by simpa using hhead
+  simp only [c1, Bool.false_eq_true, ↓reduceIte]
+  have c2 : (decide ((digitsVal d1 : Int) < lastEnd) || decide (lastEnd < 0)) = false := by
+    simp; omega
+  simp [c2]
+
+theorem item_suffix (d : Str) (h : IsDigits d) (lastEnd : Int) (hl : 0 ≤ lastEnd)
+    (rest : List Str) (acc : List (Int × Option Int)) :
+    parseRangeItems (('-' :: d) :: rest) lastEnd acc =
+      parseRangeItems rest (-1) ((-(digitsVal d : Int), none) :: acc) := by
+  have hsp : ∀ c ∈ '-' :: d, Py.isSpace c = false := by
+    intro c hc
+    rcases List.mem_cons.mp hc with rfl | hc
+    · decide
+    · exact digit_not_space (h.2 c hc)
+  rw [parseRangeItems]
+  have c0 : ¬ lastEnd < 0 := by omega
+  simp [strip_noSpace _ hsp, plainInt_neg_digits d h, c0]
+
+/-- after an open-ended or suffix item every further item makes the header unparsable -/
+theorem item_after_open (item : Str) (rest : List Str) (acc : List (Int × Option Int)) :
+    parseRangeItems (item :: rest) (-1) acc = none := by
+  rw [parseRangeItems]
+  simp only
+  split
+  · rfl
+  · split
+    · simp
+    · cases plainInt (Py.strip (List.takeWhile (fun x => x != '-') (Py.strip item))) with
+      | none => rfl
+      | some b => simp
+
+theorem splitOnChar_cons (d : Char) (s1 s2 acc : Str) (h : ∀ c ∈ s1, c ≠ d) :
+    splitOnChar d (s1 ++ d :: s2) acc = (acc.reverse ++ s1) :: splitOnChar d s2 [] := by
+  induction s1 generalizing acc with
+  | nil => simp [splitOnChar]
+  | cons c t ih =>
+    have hc : (c == d) = false := by simpa using h c (by simp)
+    simp only [List.cons_append, splitOnChar, hc, Bool.false_eq_true, ↓reduceIte]
+    rw [ih (c :: acc) (fun x hx => h x (by simp [hx]))]
+    simp
+
+def bytesEq : Str := ['b', 'y', 't', 'e', 's', '=']
+
+/-- `bytes=<specs>`: the unit is recognised and the specs are split at commas -/
+theorem parseRangeHeader_bytes (specs : Str) :
+    parseRangeHeader (some (bytesEq ++ specs)) =
+      (parseRangeItems (splitOnChar ',' specs []) 0 []).map fun rs => ⟨bytesUnit, rs⟩ := by
+  have hs : Py.strip ['b', 'y', 't', 'e', 's'] = ['b', 'y', 't', 'e', 's'] := by decide
+  have hl : lowerA ['b', 'y', 't', 'e', 's'] = bytesUnit := by decide
+  simp [parseRangeHeader, bytesEq, hs, hl]
+
+theorem digits_no_comma {d : Str} (h : ∀ c ∈ d, isDigitA c = true) : ∀ c ∈ d, c ≠ ',' :=
+  fun c hc => digit_ne (h c hc) (by decide)
 
 end Wz.Cond
